@@ -458,6 +458,13 @@ class HostConnection(object):
                 self._stream_available_condition.notify()
 
         if connection.is_defunct or connection.is_closed:
+            if connection is not self._connection and (connection in self._trash or connection.orphaned_threshold_reached):
+                # a connection that was already replaced (parked in the trash, or closed on purpose by
+                # _replace): the pool's current connection is not affected
+                with self._lock:
+                    self._trash.discard(connection)
+                return
+
             if connection.signaled_error and not self.shutdown_on_error:
                 return
 
